@@ -31,7 +31,8 @@ def extra_builds(tier):
     def chk(fname, i):
         # checked-arithmetic build: every lifecycle history of the tree shards
         return fname in ("shard_tree", "shard_input_str")
-    return [("relchk", chk), ("avx", vec), ("native", vec)]
+    # the force-32bits feature is meant to switch the curve backend only; a cfg(feature) branch elsewhere would change MACs too
+    return [("relchk", chk), ("avx", vec), ("native", vec), ("fe32", lambda f, a: f == "shard_tree" or f.endswith("_component") or f == "shard_input_str")]
 
 
 
